@@ -81,6 +81,17 @@ pub fn msg_kind(m: &Message) -> &'static str {
     }
 }
 
+/// The sender's term carried by a message that makes its receiver adopt a higher term.
+pub fn msg_term(m: &Message) -> Option<u64> {
+    match m {
+        Message::RequestVote(r) => Some(r.term),
+        Message::RequestVoteResponse(r) => Some(r.term),
+        Message::AppendEntries(a) => Some(a.term),
+        Message::AppendEntriesResponse(r) => Some(r.term),
+        _ => None,
+    }
+}
+
 pub fn msg_brief(m: &Message) -> String {
     match m {
         Message::RequestVote(r) => format!("RV(t{} c={} last={}@{})", r.term, r.candidate_id, r.last_log_index, r.last_log_term),
